@@ -121,7 +121,7 @@ struct in_s { struct step_s st[NSTEPS]; };
 static r_buf_p rb;
 static r_buf_rpos_t rp[NR];
 static int32_t sh[SIZE];
-static int32_t wseq;
+static int32_t wseq, wseq_round;	/* wseq_round: value of wseq when the writer entered its current round */
 static int32_t expq[NR];
 static uint8_t synced[NR], told[NR];
 static int wrapped, dropped, got, wgets;
@@ -156,13 +156,14 @@ static size_t check_regions(size_t r, iovec_p iov, size_t cnt) {
 	return (total);
 }
 
-static void note_drop(size_t r, size_t drop) {
+static void note_drop(const size_t r, size_t drop) {
 	if (drop == 0) return;
 	dropped++;
-	/* told it lost data: whatever comes next must be strictly later than what it already had */
-	V_ASSERT(wseq > expq[r] || !synced[r], "DROP a drop is reported only to a reader that has unread data behind the writer");
+	V_ASSERT(!(synced[r] && expq[r] >= wseq_round), "DROP no drop is reported to a reader whose unread data lies entirely in the writer's current round");
+	V_ASSERT(r_buf_rpos_check_fast(rb, &rp[r]) == 1, "DROP a reader told about a drop has been resynchronised to a valid position");
 	told[r] = 1;
-	if (synced[r]) { synced[r] = 0; expq[r] = expq[r] + 1; }	/* at least one byte is gone */
+	/* whatever comes next must be strictly later than what it already had: at least one byte is gone */
+	if (synced[r]) { synced[r] = 0; expq[r] = expq[r] + 1; }
 }
 
 static void writer_step(struct step_s s, unsigned m, size_t r) {
@@ -179,7 +180,7 @@ static void writer_step(struct step_s s, unsigned m, size_t r) {
 	V_ASSERT(n >= s.a && n >= MBS, "WRITER region is at least as large as requested and as the minimum block");
 	V_ASSERT(p != NULL && in_ring(p, n), "REGION region handed to the writer lies inside the ring");
 	if (!(p != NULL && in_ring(p, n))) return;
-	if (rb->round_num != round_before) wrapped++;
+	if (rb->round_num != round_before) { wrapped++; wseq_round = wseq; }
 	size_t po = (size_t)(p - rb->buf);
 	if (HAS(m, OP_WSET) && s.op == OP_WSET) {
 		size_t off = s.b, bs = s.c;
@@ -255,7 +256,8 @@ static void reader_step(struct step_s s, unsigned m, const size_t r) {
 		LOG("  <- seq per ring byte\n");
 		size_t total = check_regions(r, iov, cnt);
 		V_ASSERT(cnt < IOVN, "HARNESS full read is not truncated by the region array");
-		V_ASSERT(av == total, "AVAIL data_avail_size equals the bytes a full read returns");
+		if (drop == 0) V_ASSERT(av == total, "AVAIL data_avail_size equals the bytes a full read returns");
+		else V_ASSERT(av == 0, "AVAIL nothing is available in the call that reports a drop");
 		V_ASSERT(av <= SIZE, "AVAIL not more than the ring holds");
 		if (drop == 0) V_ASSERT(drop2 == 0, "DROP the read right after a clean avail query reports no drop");
 		if (total) got++;
